@@ -241,7 +241,7 @@ func Execute(j *Job, stall time.Duration) (out Outcome, poisoned bool) {
 	var r res
 	tick := time.NewTicker(200 * time.Millisecond)
 	defer tick.Stop()
-	last, lastChange := uint64(0), time.Now()
+	last, clock := uint64(0), NewStallClock()
 wait:
 	for {
 		select {
@@ -249,8 +249,9 @@ wait:
 			break wait
 		case <-tick.C:
 			if n := i.VerifOps(); n != last {
-				last, lastChange = n, time.Now()
-			} else if stall > 0 && time.Since(lastChange) > stall {
+				last = n
+				clock.Reset()
+			} else if idle := clock.Idle(); stall > 0 && idle > stall {
 				out.Class = Deadlock
 				out.Stdout, out.Stderr, out.Ops = so.String(), se.String(), n
 				out.Err = fmt.Sprintf("no interpreted operation for %v", stall)
